@@ -19,7 +19,7 @@ func throughVerifyAPREQ(c *engine.Ctx) {
 	w := apworld.NewWorld(c.Seed + 5)
 	kt := keytab.New()
 	if err := kt.Unmarshal(w.Keytab); err != nil {
-		engine.Fatal("keytab: %v", err)
+		engine.FailValid("keytab.Unmarshal(model keytab)", err)
 	}
 	present := func(b []byte, s *service.Settings) (bool, string) {
 		var ap messages.APReq
